@@ -9,9 +9,9 @@ os.makedirs(SEEDED, exist_ok=True)
 # import new ones
 for d in sorted(glob.glob('/tmp/seed_C*') + glob.glob('/tmp/seed2_C*') +
                 glob.glob('/tmp/seed3_C*') + glob.glob('/tmp/seed4_C*') + glob.glob('/tmp/seed5_C*') +
-                glob.glob('/tmp/seed6_C*') + glob.glob('/tmp/seed7_C*')):
+                glob.glob('/tmp/seed6_C*') + glob.glob('/tmp/seed7_C*') + glob.glob('/tmp/seed8_C*')):
     b = os.path.basename(d)
-    rnd = b[4] if b[4] in '234567' else ''
+    rnd = b[4] if b[4] in '2345678' else ''
     pid = os.path.basename(d).split('_')[1]
     if os.environ.get('IMPORT_ONLY') and \
             pid not in os.environ['IMPORT_ONLY'].split(','):
